@@ -58,6 +58,10 @@ pub enum Spec17 {
     FrameAfterResize { channels: usize, new_size: usize, bytes: bool },
     /// Context::new(bps, channels) with a channel count outside 1..=8, then a fill
     ContextChannels { channels: usize, bytes: bool },
+    /// the stream-level entry point with an invalid argument and a source that holds `len`
+    /// samples (0 = empty, 1, 5), with or without a length hint: an invalid argument is an error
+    /// whether or not there is anything to encode
+    StreamEncShort { mt: bool, channels: usize, bps: usize, rate: usize, block: usize, len: usize, hint: bool },
 }
 
 fn channel_values() -> Vec<usize> {
@@ -198,6 +202,24 @@ pub fn grid17() -> Vec<Spec17> {
             g.push(Spec17::MemSourceEnc { mt, channels: 2, bps: 16, rate: r });
         }
     }
+    for mt in [false, true] {
+        for len in [0usize, 1, 5] {
+            for hint in [false, true] {
+                for b in block_values() {
+                    g.push(Spec17::StreamEncShort { mt, channels: 2, bps: 16, rate: 44100, block: b, len, hint });
+                }
+                for c in [0usize, 9, 256 + 2] {
+                    g.push(Spec17::StreamEncShort { mt, channels: c, bps: 16, rate: 44100, block: 256, len, hint });
+                }
+                for b in [0usize, 7, 25, 33, 256 + 16] {
+                    g.push(Spec17::StreamEncShort { mt, channels: 2, bps: b, rate: 44100, block: 256, len, hint });
+                }
+                for r in [96001usize, 1 << 20, (1 << 32) + 44100] {
+                    g.push(Spec17::StreamEncShort { mt, channels: 2, bps: 16, rate: r, block: 256, len, hint });
+                }
+            }
+        }
+    }
     for bytes in [false, true] {
         for channels in [1usize, 2, 3, 8] {
             for how in 0..3u8 {
@@ -260,7 +282,7 @@ fn domain17(s: &Spec17) -> Dom {
     let rt = |r: usize| if r <= 96000 { Dom::Valid } else { Dom::Invalid };
     let bl = |b: usize| if (32..=32767).contains(&b) { Dom::Valid } else { Dom::Invalid };
     match s {
-        Spec17::StreamEnc { channels, bps, rate, block, .. } => all(&[ch(*channels), width_dom(*bps), rt(*rate), bl(*block)]),
+        Spec17::StreamEnc { channels, bps, rate, block, .. } | Spec17::StreamEncShort { channels, bps, rate, block, .. } => all(&[ch(*channels), width_dom(*bps), rt(*rate), bl(*block)]),
         Spec17::FrameNum { n } => {
             if *n < (1usize << 31) {
                 Dom::Valid
@@ -362,6 +384,28 @@ fn exec17(s: &Spec17) -> String {
                 let v = enc::verified(&cfg).unwrap();
                 let a = small_audio(*channels, *bps, 44100, 700, 1);
                 let mut src = TestSource::new(Arc::clone(&a), FillMode::Int, false);
+                src.report = Some((*channels, *bps, *rate));
+                match flacenc::encode_with_fixed_block_size(&v, src, *block) {
+                    Ok(stream) => match enc::to_bytes(&stream) {
+                        Ok(bytes) => {
+                            let rep = refdec::decode_stream(&bytes);
+                            if rep.fatal().is_none() && rep.pcm == a.samples && rep.info.bps as usize == *bps && rep.info.channels as usize == *channels && rep.info.rate as usize == *rate {
+                                "Ok-lossless".into()
+                            } else {
+                                format!("Ok-WRONG:stream states rate={} ch={} bps={} (decodable={})", rep.info.rate, rep.info.channels, rep.info.bps, rep.fatal().is_none())
+                            }
+                        }
+                        Err(e) => format!("Ok-WRONG:unserialisable {e:?}").chars().take(120).collect(),
+                    },
+                    Err(_) => "Err".into(),
+                }
+            }
+            Spec17::StreamEncShort { mt, channels, bps, rate, block, len, hint } => {
+                cfg.multithread = *mt;
+                cfg.block_size = 256;
+                let v = enc::verified(&cfg).unwrap();
+                let a = small_audio(*channels, *bps, 44100, *len, 3);
+                let mut src = TestSource::new(Arc::clone(&a), FillMode::Int, *hint);
                 src.report = Some((*channels, *bps, *rate));
                 match flacenc::encode_with_fixed_block_size(&v, src, *block) {
                     Ok(stream) => match enc::to_bytes(&stream) {
@@ -737,6 +781,7 @@ fn spec17_class(s: &Spec17) -> String {
         Spec17::FrameEmpty { channels, how, bytes } => format!("encode_fixed_size_frame(FrameBuf of {channels} ch x 64 {}, {})", ["never filled", "filled with an empty slice", "filled, then filled with an empty slice"][*how as usize], if *bytes { "bytes" } else { "ints" }),
         Spec17::FrameAfterResize { channels, new_size, bytes } => format!("FrameBuf::with_size(ch={channels},64) -> resize({}) -> {} of that many samples -> encode_fixed_size_frame", v(*new_size), if *bytes { "fill_le_bytes" } else { "fill_interleaved" }),
         Spec17::ContextChannels { channels, bytes } => format!("Context::new(16, channels={}) -> {}", v(*channels), if *bytes { "fill_le_bytes" } else { "fill_interleaved" }),
+        Spec17::StreamEncShort { mt, channels, bps, rate, block, len, hint } => format!("encode_with_fixed_block_size[{}](ch={},bps={},rate={},block={}; source of {len} samples, {})", if *mt { "mt" } else { "st" }, v(*channels), v(*bps), v(*rate), v(*block), if *hint { "with length hint" } else { "no hint" }),
     }
 }
 
@@ -788,6 +833,7 @@ fn spec17_sig(s: &Spec17, outcome: &str) -> String {
         Spec17::FrameEmpty { .. } => "encode_frame|empty-buffer".into(),
         Spec17::FrameAfterResize { new_size, .. } => format!("FrameBuf::resize+encode_frame|{}", if *new_size == 0 { "size0" } else { "block-size" }),
         Spec17::ContextChannels { .. } => "Context::fill|channels".into(),
+        Spec17::StreamEncShort { mt, len, .. } => format!("encode_stream[{}]|invalid-argument+{}", if *mt { "mt" } else { "st" }, if *len == 0 { "empty-source" } else { "tiny-source" }),
     };
     format!("C17|{what}|{kind}")
 }
